@@ -2820,7 +2820,7 @@ fn c17_json(c: &C17Case) -> Value {
 }
 pub fn run_c17(ctx: &mut Ctx) {
     let t = ctx.tier;
-    ctx.max_shrink_iters = 16;
+    ctx.max_shrink_iters = 6;
     let saved = ctx.workers;
     ctx.workers = 8;
     run_prop(
